@@ -15,10 +15,13 @@ symbols are pushed in the order namespace, struct, enum, global, function, and t
 `intrinsics_are_reserved = true / false`. -/
 theorem source_fingerprints :
     Gen.Reserved.candFormat = "{}_{}" ∧
-    Gen.Reserved.pushOrder = ["Namespace", "Struct", "Enum", "GlobalVariable", "Function"] ∧
-    Gen.Reserved.fact_keepCondition = true ∧ Gen.Reserved.fact_scopeLoopInsert = true ∧
+    Gen.Reserved.pushOrder = ["Namespace", "Struct", "Enum", "EnumValue", "GlobalVariable", "Function"] ∧
+    Gen.Reserved.fact_claimLoop = true ∧ Gen.Reserved.fact_keepCondition = true ∧
+    Gen.Reserved.fact_scopeLoopInsert = true ∧
     Gen.Reserved.fact_scopeUsedStartsReserved = true ∧ Gen.Reserved.fact_allScopesStartsReserved = true ∧
-    Gen.Reserved.fact_sortedByName = true ∧ Gen.Reserved.fact_localTest = true ∧
+    Gen.Reserved.fact_sortedByName = true ∧ Gen.Reserved.fact_usageOfAllFunctions = true ∧
+    Gen.Reserved.fact_usageKinds = true ∧ Gen.Reserved.fact_usageReserves = true ∧
+    Gen.Reserved.fact_localTest = true ∧
     Gen.Reserved.fact_localLoop = true ∧ Gen.Reserved.fact_localKeeps = true ∧
     Gen.Reserved.fact_counterStartsAtZero = true ∧
     Gen.Reserved.hlslIntrinsicsReserved = true ∧ Gen.Reserved.mslIntrinsicsReserved = false := by
@@ -37,32 +40,28 @@ example : "SamplerState" ∈ Gen.Reserved.hlsl ∧ "SamplerState," ∉ Gen.Reser
     "device" ∈ Gen.Reserved.msl ∧ "threadgroup" ∈ Gen.Reserved.msl := by
   decide +kernel
 
-/-! ## what is *not* true on the pinned code (negation witnesses, replayed on the real code by the corpus) -/
+/-! ## the former negation witnesses, now examples of the repaired behaviour (/repo 0dfd8dd, 6bac604) -/
 
 /-- overloads `a`, `a` and a function `a_0` in one scope -/
 def witnessVerbatim : Input :=
-  { nss := [], locals := []
+  { nss := [], locals := [], used := []
     entries := [⟨⟨.func, 0⟩, none, "a"⟩, ⟨⟨.func, 1⟩, none, "a"⟩, ⟨⟨.func, 2⟩, none, "a_0"⟩] }
 
-/-- **Unconditional verbatim is false**: `a_0` is unique in its scope and not reserved in HLSL or MSL, yet the
-two overloads of `a` take `a_0`, `a_1` first (groups are visited in sorted order) and `a_0` becomes `a_0_0`. -/
-theorem verbatim_unconditional_false :
-    "a_0" ∉ Gen.Reserved.hlsl ∧ "a_0" ∉ Gen.Reserved.msl ∧
-    (build Gen.Reserved.hlsl witnessVerbatim).toOption.map (·.map (·.name)) = some ["a_0", "a_1", "a_0_0"] ∧
-    (build Gen.Reserved.msl witnessVerbatim).toOption.map (·.map (·.name)) = some ["a_0", "a_1", "a_0_0"] := by
+/-- the user's `a_0` is claimed first; the overloads take `a_1`, `a_2` (before 0dfd8dd: `a_0, a_1, a_0_0`) -/
+theorem verbatim_witness_fixed :
+    (build Gen.Reserved.hlsl witnessVerbatim).toOption.map (·.map (·.name)) = some ["a_1", "a_2", "a_0"] ∧
+    (build Gen.Reserved.msl witnessVerbatim).toOption.map (·.map (·.name)) = some ["a_1", "a_2", "a_0"] := by
   decide +kernel
 
-/-- a function `kernel_0` and a parameter `kernel` (reserved in MSL) -/
+/-- a function `kernel_0` that the body of `f` calls, and `f`'s parameter `kernel` (reserved in MSL) -/
 def witnessCapture : Input :=
-  { nss := [], locals := ["kernel"]
+  { nss := [], locals := ["kernel"], used := [⟨.func, 0⟩]
     entries := [⟨⟨.func, 0⟩, none, "kernel_0"⟩, ⟨⟨.func, 1⟩, none, "f"⟩] }
 
-/-- **Locals are not kept apart from globals**: the local pass only avoids reserved names, generated
-candidates and *source* names of locals, so the parameter `kernel` is renamed to `kernel_0`, the verbatim name
-of a function visible in the same body (a use of that function inside is captured). -/
-theorem local_may_capture_global :
+/-- the parameter skips `kernel_0` because a body uses the function of that name (before 6bac604 it took it) -/
+theorem capture_witness_fixed :
     (build Gen.Reserved.msl witnessCapture).toOption.map (·.map (fun n => (n.sym.kind, n.name))) =
-      some [(.func, "f"), (.func, "kernel_0"), (.localVar, "kernel_0")] := by
+      some [(.func, "f"), (.func, "kernel_0"), (.localVar, "kernel_1")] := by
   decide +kernel
 
 end RsslVerif.Lemmas.NamesTables
